@@ -523,7 +523,16 @@ func buildProfile(segs string) core.Schedule {
 			parts = append(parts, schedule.NewConst(0, time.Duration(at(1))*time.Millisecond))
 		case "unl":
 			parts = append(parts, schedule.NewUnlimited(time.Duration(at(1))*time.Millisecond))
+		case "step": // step.<from mrps>.<to mrps>.<step rps>.<ms per level>: the registered `step` profile
+			parts = append(parts, schedule.NewStepConf(schedule.StepConfig{
+				From: float64(at(1)) / 1000, To: float64(at(2)) / 1000, Step: at(3), Duration: time.Duration(at(4)) * time.Millisecond}))
+		case "istep": // istep.<from>.<to>.<step>.<ms>: the registered `instance_step` profile used as an rps profile
+			parts = append(parts, schedule.NewInstanceStepConf(schedule.InstanceStepConfig{
+				From: at(1), To: at(2), Step: at(3), StepDuration: time.Duration(at(4)) * time.Millisecond}))
 		}
+	}
+	if len(parts) == 1 && (strings.HasPrefix(segs, "step.") || strings.HasPrefix(segs, "istep.")) {
+		return parts[0] // the profile as the config factory hands it to the pool: not wrapped again
 	}
 	return schedule.NewComposite(parts...)
 }
@@ -950,33 +959,109 @@ func (a *poolAggr) Report(s core.Sample) {
 	}
 }
 
-// profOffsets: the token offsets (ns) a finite profile once.<n> ; const.<ops>.<ms> ; pause.<ms> is configured to have
+// partOffsets: the token offsets (ns) one part of a finite profile is CONFIGURED to have when it starts at `start`,
+// and how long the part lasts (the harness's own arithmetic from the written numbers; the model recomputes it).
+//	once.<n> ; const.<ops>.<ms> ; pause.<ms> ; step.<from mrps>.<to mrps>.<step rps>.<ms> ; istep.<from>.<to>.<step>.<ms>
+func partOffsets(sg string, start int64) ([]int64, int64) {
+	var offs []int64
+	f := strings.Split(sg, ".")
+	at := func(i int) int64 {
+		if i >= len(f) {
+			return 0
+		}
+		v, _ := strconv.ParseInt(f[i], 10, 64)
+		return v
+	}
+	constLevel := func(mrps, dur, start int64) {
+		if mrps <= 0 {
+			return
+		}
+		n := mrps * (dur / ms) / 1000000 // mrps * seconds / 1000
+		for k := int64(0); k < n; k++ {
+			offs = append(offs, start+k*(1000000*ms/mrps))
+		}
+	}
+	switch f[0] {
+	case "once":
+		for k := int64(0); k < at(1); k++ {
+			offs = append(offs, start)
+		}
+		return offs, 0
+	case "const":
+		constLevel(at(1)*1000, at(2)*ms, start)
+		return offs, at(2) * ms
+	case "pause", "unl":
+		return offs, at(1) * ms
+	case "step": // every level from, from+step, ... <= to lasts its duration, with or without tokens
+		dur, total := at(4)*ms, int64(0)
+		for rate := at(1); rate <= at(2); rate += at(3) * 1000 {
+			constLevel(rate, dur, start+total)
+			total += dur
+		}
+		return offs, total
+	case "istep":
+		total := int64(0)
+		for k := int64(0); k < at(1); k++ {
+			offs = append(offs, start)
+		}
+		for i := at(1) + at(3); i <= at(2); i += at(3) {
+			total += at(4) * ms
+			for k := int64(0); k < at(3); k++ {
+				offs = append(offs, start+total)
+			}
+		}
+		return offs, total
+	}
+	return offs, 0
+}
+
+// exactPart: every rate of the part has a whole number of ns between two tokens (the model's offsets are exact then)
+func exactPart(sg string) bool {
+	f := strings.Split(sg, ".")
+	if f[0] != "step" {
+		return true
+	}
+	from, _ := strconv.ParseInt(f[1], 10, 64)
+	to, _ := strconv.ParseInt(f[2], 10, 64)
+	st, _ := strconv.ParseInt(f[3], 10, 64)
+	for rate := from; rate <= to; rate += st * 1000 {
+		if rate > 0 && 1000000000000%rate != 0 {
+			return false
+		}
+	}
+	return true
+}
+
+// genStepPart: a `step` / `instance_step` part as a config may hold it: staircases that open with a level without
+// tokens (from 0, or a rate below one token per level), staircases of positive rates, flat ones (from == to)
+func genStepPart(r *vh.Rand, durs []int) string {
+	for {
+		dur := r.PickInt(durs)
+		var sg string
+		if r.Chance(1, 5) {
+			from := r.Range(0, 2)
+			st := r.Range(1, 2)
+			sg = fmt.Sprintf("istep.%d.%d.%d.%d", from, from+st*r.Range(1, 2), st, dur)
+		} else {
+			from := r.PickInt([]int{0, 0, 0, 500, 500, 1000, 2000})
+			st := r.Range(1, 2)
+			to := from + 1000*st*r.Range(0, 2) + r.PickInt([]int{0, 0, 500})
+			sg = fmt.Sprintf("step.%d.%d.%d.%d", from, to, st, dur)
+		}
+		if exactPart(sg) {
+			return sg
+		}
+	}
+}
+
+// profOffsets: the token offsets (ns) a finite profile is configured to have
 func profOffsets(segs string) []int64 {
 	var offs []int64
 	start := int64(0)
 	for _, sg := range strings.Split(segs, ";") {
-		f := strings.Split(sg, ".")
-		at := func(i int) int64 {
-			if i >= len(f) {
-				return 0
-			}
-			v, _ := strconv.ParseInt(f[i], 10, 64)
-			return v
-		}
-		switch f[0] {
-		case "once":
-			for k := int64(0); k < at(1); k++ {
-				offs = append(offs, start)
-			}
-		case "const":
-			ops, dur := at(1), at(2)*ms
-			for k := int64(0); ops > 0 && k < ops*dur/(1000*ms); k++ {
-				offs = append(offs, start+k*(1000*ms/ops))
-			}
-			start += dur
-		case "pause":
-			start += at(1) * ms
-		}
+		o, d := partOffsets(sg, start)
+		offs = append(offs, o...)
+		start += d
 	}
 	return offs
 }
@@ -1663,17 +1748,30 @@ func gen(r *vh.Rand, tier string) []string {
 		out = append(out, fmt.Sprintf("ph %d %d %d %d %d %s", r.Range(2, 6), behind, r.Range(45, 80), r.Range(1, 2), q, b(stall)))
 	}
 	// composite rps profiles: finite segments, pauses, an unlimited tail of short duration
-	nP := 14
+	nP := 20
 	if tier == "thorough" {
-		nP = 150
+		nP = 200
 	}
 	for made := 0; made < nP; {
 		nseg := r.Range(2, 4)
 		var segs []string
 		var offs []int64 // ns
 		start := int64(0)
+		if made%5 == 4 {
+			nseg = 1 // the whole rps profile is one `step` / `instance_step` entry (plus, mostly, an unlimited tail)
+		}
 		for i := 0; i < nseg; i++ {
-			switch r.Intn(4) {
+			kind := r.Intn(5)
+			if made%5 >= 3 && i == 0 {
+				kind = 4
+			}
+			switch kind {
+			case 4: // a staircase built by the profile type itself (levels without tokens are its pauses)
+				sg := genStepPart(r, []int{500, 1000})
+				o, d := partOffsets(sg, start)
+				segs = append(segs, sg)
+				offs = append(offs, o...)
+				start += d
 			case 0:
 				n := r.Range(1, 3)
 				segs = append(segs, fmt.Sprintf("once.%d", n))
@@ -1770,7 +1868,13 @@ func gen(r *vh.Rand, tier string) []string {
 		var offs []int64
 		start := int64(0)
 		for i, ns := 0, r.Range(2, 4); i < ns; i++ {
-			switch r.Intn(5) {
+			switch r.Intn(6) {
+			case 5:
+				sg := genStepPart(r, []int{200, 500, 1000})
+				o, d := partOffsets(sg, start)
+				segs = append(segs, sg)
+				offs = append(offs, o...)
+				start += d
 			case 0:
 				k := r.Range(1, n)
 				segs = append(segs, fmt.Sprintf("once.%d", k))
@@ -1827,7 +1931,13 @@ func gen(r *vh.Rand, tier string) []string {
 			var segs []string
 			start := int64(0)
 			for i, ns := 0, r.Range(1, 2); i < ns; i++ {
-				if r.Chance(1, 3) {
+				if r.Chance(1, 4) {
+					sg := genStepPart(r, []int{500, 1000})
+					o, d := partOffsets(sg, start)
+					segs = append(segs, sg)
+					offs = append(offs, o...)
+					start += d
+				} else if r.Chance(1, 3) {
 					k := r.Range(1, 3)
 					segs = append(segs, fmt.Sprintf("once.%d", k))
 					for j := 0; j < k; j++ {
@@ -1928,7 +2038,13 @@ func gen(r *vh.Rand, tier string) []string {
 				start += dur
 			}
 			for i, m := 0, r.Range(1, 3); i < m; i++ {
-				if r.Chance(1, 3) {
+				if r.Chance(1, 4) {
+					sg := genStepPart(r, []int{1000, 2000})
+					o, d := partOffsets(sg, start)
+					segs = append(segs, sg)
+					offs = append(offs, o...)
+					start += d
+				} else if r.Chance(1, 3) {
 					addOnce()
 				} else {
 					addConst()
